@@ -49,7 +49,7 @@ class PointTopologyFromFacesSubarray(PointTopology, MeshSubarray):
         faces = where(node_connectivity == node)[0]
 
         nodes = []
-        nodes_extend = nodes.extend
+        nodes_append = nodes.append
 
         # For each face, find which two of its nodes are neighbours to
         # 'node'.
@@ -59,15 +59,15 @@ class PointTopologyFromFacesSubarray(PointTopology, MeshSubarray):
 
             face_nodes = face_nodes.tolist()
             face_nodes.append(face_nodes[0])
-            nodes_extend(
-                [
-                    m
-                    for m, n in zip(face_nodes[:-1], face_nodes[1:])
-                    if n == node
-                ]
-            )
+            for m, n in zip(face_nodes[:-1], face_nodes[1:]):
+                if n == node:
+                    # 'm' precedes 'node' in this face
+                    nodes_append(m)
+                if m == node:
+                    # 'n' follows 'node' in this face
+                    nodes_append(n)
 
-        nodes = list(set(nodes))
+        nodes = sorted(set(nodes))
 
         # Insert 'node' at the front of the list
         nodes.insert(0, node)
